@@ -95,6 +95,7 @@ def run_config(chk, tier, cfgname):
                  detail="assume_init must set the live flag and link the block exactly once on every normal path")
     typestate.apply(chk, "link-counts-once", "link", aspects=("credits", "credits-over", "credits-under", "safety"))
     rules_builder.value_moved_into_block(chk, prog)
+    rules_builder.block_exposed_only_after_disarm(chk, prog)
     rules_builder.pointer_range_loops(chk, prog)
     # ---- partial initialisation
     rules_builder.slice_builder_unwind(chk, prog)
